@@ -489,4 +489,86 @@ theorem slowDomain_bell_exact {F : FTy} (hF : IsLemireFloat F) {p eb : Nat} (lay
       _ = S * 10 ^ (-n.exponent).toNat * (10 ^ fl * 10 ^ (-n.explicitExp).toNat) := by
           rw [e3, Nat.pow_add]
 
+/-- **truncated `Number`s of a `compact` build** -/
+theorem slowDomain_bell_truncated {F : FTy} (hF : IsLemireFloat F) {p eb : Nat} (lay : Layout F p eb) (c : Cfg)
+    (hr : c.mantissaRadix = 10) (hb : c.exponentBase = 10) (n : Number) (hmany : n.manyDigits = true)
+    (hs : PlainSlices c n) (hN : 19 < (sigBytes n.integer n.fraction).length)
+    (hw : n.mantissa = ofDigits 10 (dv 10 ((sigBytes n.integer n.fraction).take 19)))
+    (hw1 : 10 ^ 18 ≤ n.mantissa) (hw2 : n.mantissa < 10 ^ 19)
+    (hq : n.exponent = ((sigBytes n.integer n.fraction).length : Int) - 19 + n.explicitExp -
+      ((n.fraction.getD []).length : Int))
+    (fp : ExtendedFloat80) (hbel : Bellerophon.bellerophon F compactP (numOf n) false = .ok fp) (hinv : fp.exp < 0) :
+    ∃ d, SlowDomain c F p n { fp with exp := fp.exp - invalidFp } d ∧
+      Bracket F fp (litFrac 10 10 (numberLit c n)).1 (litFrac 10 10 (numberLit c n)).2 := by
+  obtain ⟨d, hd, hd19, hd769⟩ := maxDigits_decimal_le c.feats hF
+  have hw64 : n.mantissa < 2 ^ 64 := Nat.lt_trans hw2 pow10_19
+  have hw59 : 2 ^ 59 ≤ n.mantissa := by
+    have : (2 : Nat) ^ 59 ≤ 10 ^ 18 := by decide
+    omega
+  have hnum : numOf n = ⟨n.mantissa, n.exponent, n.isNegative, true⟩ := by unfold numOf; rw [hmany]
+  have hvs : ValidDigits 10 (sigBytes n.integer n.fraction) := by
+    have := valid_sigBytes hs.validInt hs.validFrac
+    rwa [hr] at this
+  obtain ⟨z, hz⟩ := sig_decomp n.integer n.fraction
+  have hD : ofDigits 10 ((numberLit c n).intDigits ++ (numberLit c n).fracDigits) =
+      ofDigits 10 (dv 10 (sigBytes n.integer n.fraction)) := by
+    rw [hs.intDigits, hs.fracDigits, hr]
+    have : dv 10 n.integer ++ dv 10 (n.fraction.getD []) = dv 10 (n.integer ++ n.fraction.getD []) := by
+      unfold dv; rw [List.map_append]
+    rw [this, hz, ofDigits_dv_zeros]
+  have hfl : (numberLit c n).fracDigits.length = (n.fraction.getD []).length := by
+    rw [hs.fracDigits, dv_length]
+  have hE : (numberLit c n).exp = n.explicitExp := rfl
+  have hV : litFrac 10 10 (numberLit c n) =
+      (ofDigits 10 (dv 10 (sigBytes n.integer n.fraction)) * 10 ^ n.explicitExp.toNat,
+        10 ^ (n.fraction.getD []).length * 10 ^ (-n.explicitExp).toNat) := by
+    rw [litFrac_eq, hD, hfl, hE]
+  obtain ⟨M, cnt, hmo, hc19, hcd, hM1, hM2⟩ := mantissaOf_interval (d := d) hvs hd19 hN
+  rw [← hw] at hM1 hM2
+  have hSsplit := C01Number.ofDigits_dv_take_drop 10 (sigBytes n.integer n.fraction) 19
+  have hStail := ofDigits_dv_lt (valid_drop hvs 19)
+  rw [← hw, List.length_drop] at hSsplit
+  rw [List.length_drop] at hStail
+  have hne : sigBytes n.integer n.fraction ≠ [] := by
+    intro h0; rw [h0] at hN; simp at hN
+  generalize hsig : sigBytes n.integer n.fraction = sig at *
+  generalize hS : ofDigits 10 (dv 10 sig) = S at *
+  generalize hfle : (n.fraction.getD []).length = fl at *
+  generalize htl : ofDigits 10 (dv 10 (List.drop 19 sig)) = tl at *
+  have hMlt : M < 10 ^ cnt := by
+    calc M < (n.mantissa + 1) * 10 ^ (cnt - 19) := hM2
+      _ ≤ 10 ^ 19 * 10 ^ (cnt - 19) := Nat.mul_le_mul_right _ (by omega)
+      _ = 10 ^ cnt := by rw [← Nat.pow_add]; congr 1; omega
+  have hS1 : n.mantissa * 10 ^ (sig.length - 19) ≤ S := by omega
+  have hS2 : S < (n.mantissa + 1) * 10 ^ (sig.length - 19) := by
+    have : (n.mantissa + 1) * 10 ^ (sig.length - 19) = n.mantissa * 10 ^ (sig.length - 19) + 10 ^ (sig.length - 19) := by
+      ring
+    omega
+  have hT18 : ∀ T : Nat, 10 ^ T ≤ n.mantissa → n.mantissa < 10 ^ (T + 1) → T = 18 := by
+    intro T t1 t2
+    have a1 : 10 ^ T < 10 ^ 19 := Nat.lt_of_le_of_lt t1 hw2
+    have a2 : 10 ^ 18 < 10 ^ (T + 1) := Nat.lt_of_le_of_lt hw1 t2
+    have := (Nat.pow_lt_pow_iff_right (by decide : 1 < 10)).mp a1
+    have := (Nat.pow_lt_pow_iff_right (by decide : 1 < 10)).mp a2
+    omega
+  refine ⟨d, ?_⟩
+  apply slowDomain_bell hF lay c hr hb n hs (by rw [hsig]; exact hne) hw64 (fun _ => hw59)
+    (by
+      rw [hsig, hfle]
+      intro T t1 t2
+      have := hT18 T t1 t2
+      omega)
+    d hd M cnt (by rw [hsig]; exact hmo) hMlt (by omega) ?_ ?_ fp hbel hinv
+  · rw [hnum, hV]
+    exact interval_tv S n.mantissa (sig.length - 19) fl n.exponent n.explicitExp n.isNegative hS1 hS2 (by omega)
+  · intro T t1 t2 hneg
+    have hT := hT18 T t1 t2
+    have := interval_tv M n.mantissa (cnt - 19) 0 n.exponent (n.exponent + ↑T + 1 - (cnt : Int)) n.isNegative
+      hM1 hM2 (by omega)
+    have hdz : (n.exponent + ↑T + 1 - (cnt : Int)).toNat = 0 := by omega
+    rw [hdz] at this
+    simp only [Nat.pow_zero, Nat.mul_one, Nat.one_mul] at this
+    rw [hnum]
+    exact this
+
 end LexVerif.Props.C01Compact
